@@ -12,7 +12,7 @@ PATTERNS = [('a', False), ('^a', False), ('b$', False), ('a.', False), ('[ab]b',
             # match flags (the two-argument and the three-argument form of re()): they reach std::regex_search for every
             # kind of string argument (seeded change C10-m8 dropped them for C strings)
             ('^a', 'nb'), ('b$', 'ne'), ('^a$', 'nb'), ('^a$', 'ne'), ('b', 'mc'), ('a|b', 'mc'), ('^A', 'i+nb'), ('B$', 'i+ne'), ('a', 'nb'),
-            ('^$', 'nb'), ('^$', 'ne')]
+            ('^$', 'nb'), ('^$', 'ne'), ('b*', False), ('x*', False)]
 MATCH_FLAG = {'nb': 'match_not_bol', 'ne': 'match_not_eol', 'mc': 'match_continuous'}
 
 
@@ -225,6 +225,11 @@ CORPUS = [
     ('sv', '!trompeloeil::re("ba")', ['not', 're', '0'], [('ba', False)]),
     ('ptr_raw', 'nullptr', ['val', 'pnull'], []),
     ('cstr', 'nullptr', ['val', 'cnull'], []),
+    # a null C string is not the empty string: patterns that are found in "" (seeded change C10-m10)
+    ('cstr', re_cpp('^$', ''), ['re', '0'], [('^$', '')]),
+    ('cstr', '!' + re_cpp('b*', ''), ['not', 're', '0'], [('b*', '')]),
+    ('cstr', 'trompeloeil::all_of(trompeloeil::_, ' + re_cpp('x*', '') + ')', ['allof', '2', 'any', 're', '0'], [('x*', '')]),
+    ('str', re_cpp('^$', ''), ['re', '0'], [('^$', '')]),
     # match flags on every kind of string argument (seeded change C10-m8)
     ('cstr', re_cpp('^a', 'nb'), ['re', '0'], [('^a', 'nb')]),
     ('cstr', re_cpp('b$', 'ne'), ['re', '0'], [('b$', 'ne')]),
